@@ -594,3 +594,59 @@ def engine_S(name, kinds, nitems, maxp, num, depth, seed, wit, wd_name=None):
             f.samples.append({"engine": "S", "kind": kind, "first_steps": cases[0]["steps"][:8]})
         replay_and_validate(cases, wd, "S/" + kind, f)
     return f
+
+
+# ------------------------------------------------------------------------------------------------
+# Engine M: mid-size states, every position.  Seeded states of 8-40 elements (several heap levels, ties)
+# built by pushes / from_vec, then EVERY operation of the core alphabet probed from them for every stored key
+# (so that every heap position and every slot index is addressed), with witness drains.
+# ------------------------------------------------------------------------------------------------
+def engine_M(name, kinds, sizes, reps, seed, wit, ops_filter=None, wd_name=None, hashers=("std",)):
+    f = Findings()
+    rng = random.Random(seed * 101 + 7)
+    for kind in kinds:
+        wd = vlib.workdir((wd_name or name) + "_M_" + kind)
+        pops = ["pop"] if kind == "pq" else ["pop_min", "pop_max"]
+        popifs = ["pop_if"] if kind == "pq" else ["pop_min_if", "pop_max_if"]
+        cases = []
+        for n in sizes:
+            for rep in range(reps):
+                keys = ["k%d" % i for i in range(n)]
+                nprio = rng.choice([3, 5, n, 2 * n])               # many ties ... all distinct
+                pri = [rng.randrange(nprio) for _ in keys]
+                if rep % 3 == 0:
+                    steps = [{"op": "push", "k": k, "r": r} for k, r in zip(keys, pri)]
+                elif rep % 3 == 1:
+                    steps = [{"op": "from_vec", "q": 0, "pairs": [[k, r] for k, r in zip(keys, pri)]}]
+                else:
+                    # pushes followed by a few removals and re-insertions: slot order differs from heap order
+                    steps = [{"op": "push", "k": k, "r": r} for k, r in zip(keys, pri)]
+                    for k in rng.sample(keys, max(1, n // 4)):
+                        steps += [{"op": "remove", "k": k}, {"op": "push", "k": k, "r": rng.randrange(nprio)}]
+                lo, hi, mid = -1, nprio + 1, nprio // 2
+                probes = []
+                for k in keys + ["zz"]:
+                    for r in (lo, mid, hi):
+                        probes.append([{"op": "push", "k": k, "r": r}])
+                        probes.append([{"op": "change_priority", "k": k, "r": r}])
+                    probes.append([{"op": "change_priority_by", "k": k, "r": rng.choice([lo, mid, hi])}])
+                    probes.append([{"op": "push_increase", "k": k, "r": rng.choice([mid, hi])}])
+                    probes.append([{"op": "push_decrease", "k": k, "r": rng.choice([lo, mid])}])
+                    probes.append([{"op": "remove", "k": k}])
+                for p in pops:
+                    probes.append([{"op": p}])
+                    probes.append([{"op": p}, {"op": p}, {"op": p}])
+                for p in popifs:
+                    for st in ([], [lo], [hi], [mid]):
+                        probes.append([{"op": p, "yes": False, "set": st}])
+                        probes.append([{"op": p, "yes": True, "set": st}])
+                if ops_filter:
+                    probes = [p for p in probes if ops_filter(p[0])]
+                for j in range(0, len(probes), 120):
+                    cases.append({"case": [kind, "M", n, rep, j], "kind": kind, "hasher": hashers[(rep + j) % len(hashers)],
+                                  "universe": keys + ["zz"], "steps": steps, "probes": probes[j:j + 120], "wit": wit})
+        f.samples.append({"engine": "M", "kind": kind, "sizes": list(sizes), "probes_from_each_state": "every stored key x "
+                          "{push, change_priority(_by), push_increase/decrease, remove} x {below, middle, above}, pops, pop_if"})
+        f.stats["engines"].append({"engine": "M", "kind": kind, "sizes": list(sizes), "states": len(sizes) * reps, "cases": len(cases)})
+        replay_and_validate(cases, wd, "M/" + kind, f)
+    return f
